@@ -204,6 +204,8 @@ fn implied(premises: &[&Vec<DumpLit>], conclusion: &[DumpLit]) -> Option<bool> {
 }
 
 /// I3a: every learnt clause is implied by the non-learnt clauses of the database (which I1 shows to be facts).
+/// Only the clauses connected (through shared variables) to the learnt clause can matter, so the implication is
+/// decided on that connected part (a chronological DPLL over unrelated components would blow up).
 pub fn learnt_sound(d: &Dump) -> Option<String> {
     let facts: Vec<&Vec<DumpLit>> = d
         .clauses
@@ -211,6 +213,16 @@ pub fn learnt_sound(d: &Dump) -> Option<String> {
         .filter(|c| !matches!(c.kind, DumpKind::Learnt(_)))
         .map(|c| &c.literals)
         .collect();
+    let mut by_var: BTreeMap<DumpVar, Vec<usize>> = BTreeMap::new();
+    for (k, c) in facts.iter().enumerate() {
+        for (v, _) in c.iter() {
+            // the root is true everywhere and would connect everything; it is handled as a unit fact instead
+            if *v != DumpVar::Root {
+                by_var.entry(*v).or_default().push(k);
+            }
+        }
+    }
+    let root_unit: Vec<DumpLit> = vec![(DumpVar::Root, true)];
     // on very long runs a seeded-by-position sample of the learnt clauses is certified (first 24, then every 8th)
     let mut n = 0usize;
     for (i, c) in d.clauses.iter().enumerate() {
@@ -219,7 +231,30 @@ pub fn learnt_sound(d: &Dump) -> Option<String> {
             if n > 24 && n % 8 != 0 {
                 continue;
             }
-            if implied(&facts, &c.literals) == Some(false) {
+            let mut seen_v: BTreeSet<DumpVar> = BTreeSet::new();
+            let mut seen_c: BTreeSet<usize> = BTreeSet::new();
+            let mut queue: Vec<DumpVar> = Vec::new();
+            for (v, _) in &c.literals {
+                if *v != DumpVar::Root && seen_v.insert(*v) {
+                    queue.push(*v);
+                }
+            }
+            while let Some(v) = queue.pop() {
+                if let Some(cs) = by_var.get(&v) {
+                    for k in cs {
+                        if seen_c.insert(*k) {
+                            for (u, _) in facts[*k].iter() {
+                                if *u != DumpVar::Root && seen_v.insert(*u) {
+                                    queue.push(*u);
+                                }
+                            }
+                        }
+                    }
+                }
+            }
+            let mut prem: Vec<&Vec<DumpLit>> = seen_c.iter().map(|k| facts[*k]).collect();
+            prem.push(&root_unit);
+            if implied(&prem, &c.literals) == Some(false) {
                 return Some(format!("learnt clause #{i} {:?} is not implied by the problem clauses", c.literals));
             }
         }
@@ -328,6 +363,46 @@ pub fn solution_encoded(w: &World, p: &ProblemSpec, sol: &[u32], cand_received: 
         });
         if !sat {
             return Some(format!("the final assignment falsifies clause #{i} {:?} {:?}", c.kind, c.literals));
+        }
+    }
+    None
+}
+
+
+/// I6: every propagated assignment on the final trail is justified: its reason clause contains the literal it
+/// makes true and all other literals of that clause were falsified earlier on the trail. (Assignments whose
+/// reason is a requires clause and whose value is true may be decisions and are skipped, as are the root and
+/// the soft requirements themselves.)
+pub fn trail_justified(d: &Dump) -> Option<String> {
+    let mut pos: BTreeMap<DumpVar, (usize, bool)> = BTreeMap::new();
+    for (i, t) in d.trail.iter().enumerate() {
+        pos.insert(t.variable, (i, t.value));
+    }
+    for (i, t) in d.trail.iter().enumerate() {
+        let Some(c) = d.clauses.get(t.derived_from) else {
+            return Some(format!("trail entry {i} refers to clause #{} which does not exist", t.derived_from));
+        };
+        match (&c.kind, t.value) {
+            (DumpKind::InstallRoot, _) => continue,
+            (DumpKind::Requires(..), true) => continue,
+            _ => {}
+        }
+        if !c.literals.contains(&(t.variable, t.value)) {
+            return Some(format!("trail entry {i} ({:?} = {}) is attributed to clause #{} {:?} which does not contain that literal", t.variable, t.value, t.derived_from, c.literals));
+        }
+        for (v, p) in &c.literals {
+            if *v == t.variable {
+                continue;
+            }
+            match pos.get(v) {
+                Some((j, val)) if *j < i && *val != *p => {}
+                _ => {
+                    return Some(format!(
+                        "trail entry {i} ({:?} = {}) is attributed to clause #{} {:?} {:?}, but its literal on {:?} was not false before that assignment",
+                        t.variable, t.value, t.derived_from, c.kind, c.literals, v
+                    ));
+                }
+            }
         }
     }
     None
